@@ -893,12 +893,10 @@ func main() {
 		}
 		env.close()
 	}
-	if rep.Thorough() {
-		wrapAround(70000, 50, rep.Seed)
-	} else {
-		// quick: the exhaustion scenario below keeps (more) queries held across the
-		// wrap on one connection and verifies them the same way; one pass is enough
-	}
+	// both tiers: the exhaustion scenario below holds long consecutive blocks, which hides
+	// allocators that look at a neighbouring slot (seeded change C01-A); this cell holds 50
+	// scattered queries across the wrap
+	wrapAround(70000, 50, rep.Seed)
 	// failed wire-ID assignments must not disturb the queries in flight (exhaust.go)
 	if rep.Thorough() {
 		idExhaustion(false, 2, true, rep.Seed)
